@@ -24,7 +24,7 @@ def build_pool(seed, n=60):
     for f in FAILING:
         pool.append({'src': 'L0:\nK0 = 3\naddi x1, x1, K0\n%s\nj L0\n' % f, 'compress': rng.random() < 0.5, 'dicts': not f.endswith('SHARED_L') and rng.random() < 0.7})
     # same label / constant names, different values
-    while len(pool) < n - 4:
+    while len(pool) < n - 6:
         items = randprog.gen(rng, dict(n=(3, 25), labels=(1, 4)))
         if rng.random() < 0.6:
             items = randprog.constify(rng, items, 0.4)
@@ -32,10 +32,22 @@ def build_pool(seed, n=60):
     # include trees (exercise include_dirs)
     for k in range(4):
         pool.append({'src': None, 'tree': k, 'compress': bool(k & 1), 'dicts': True})
+    # trees 4, 5: the included file itself includes a file that does not exist (read-time failure two levels down); tree 5 shares the
+    # included file with tree 4
+    pool.append({'src': None, 'tree': 4, 'compress': False, 'dicts': True})
+    pool.append({'src': None, 'tree': 5, 'compress': True, 'dicts': False})
     return pool
 
 
 def make_tree(root, k):
+    if k >= 4:
+        shared = os.path.join(root, 'shared')
+        src = os.path.join(root, 'srcbad%d' % k)
+        os.makedirs(shared, exist_ok=True)
+        os.makedirs(src, exist_ok=True)
+        open(os.path.join(shared, 'common.asm'), 'w').write('COMMON_K = 3\nnop\ninclude nosuch_nested.asm\n')
+        open(os.path.join(src, 'main.asm'), 'w').write('addi x1, x1, 1\ninclude common.asm\nret\n' + ('nop\n' * (k - 4)))
+        return os.path.join(src, 'main.asm'), [shared]
     inc = os.path.join(root, 'inc%d' % k)
     src = os.path.join(root, 'src%d' % k)
     os.makedirs(inc, exist_ok=True)
